@@ -145,10 +145,66 @@ def r16(body):
     return _sub(r"(&\s*)?\b((?:self\s*\.\s*)?input)\s*\[\s*([^\[\];]*?)\s*\.\.\s*([^\[\];]*?)\s*\]", rep, body)
 
 
-def apply_rewrites(body, only=None):
+@rule("R15", "for _ in E -> for vx_i in E   [renaming of an ignored pattern, so that loop invariants can mention the counter]")
+def r15(body):
+    return _sub(r"\bfor\s+_\s+in\b", lambda m: "for vx_i in", body)
+
+
+@rule("R17", "for P in E.iter() -> for P in vx_it: E.iter()   [Verus-only label naming the ghost iterator; no executable change]")
+def r17(body):
+    return _sub(r"\bfor\s+(\w+)\s+in\s+(?!vx_it)([\w\.]+\.iter\(\))", lambda m: "for %s in vx_it: %s" % (m.group(1), m.group(2)), body)
+
+
+@rule("R9", "for P in A..B { BODY } -> { let mut vx_rng = A..B; loop { match vx_rng.next() { Some(P) => { BODY } None => break, } } }   [the language reference's definition of `for`; needed because Verus for-loops reject `continue`]")
+def r9(body):
+    count = 0
+    pos = 0
+    while True:
+        m = re.compile(r"\bfor\s+(\w+)\s+in\s+([^{};]+?\.\.[^{};]+?)\s*\{").search(body, pos)
+        if not m:
+            break
+        # match the body braces
+        i = m.end() - 1
+        depth = 0
+        j = i
+        in_str = False
+        while j < len(body):
+            ch = body[j]
+            if in_str:
+                if ch == '\\':
+                    j += 1
+                elif ch == '"':
+                    in_str = False
+            elif ch == '"':
+                in_str = True
+            elif ch == '{':
+                depth += 1
+            elif ch == '}':
+                depth -= 1
+                if depth == 0:
+                    break
+            j += 1
+        name = "vx_rng%d" % count if count else "vx_rng"
+        head = "{ let mut %s = %s; loop { match %s.next() { Some(%s) => {" % (name, " ".join(m.group(2).split()), name, m.group(1))
+        head = _pad(m.group(0), head)
+        tail = "} None => break, } } }"
+        body = body[:m.start()] + head + body[m.end():j] + tail + body[j + 1:]
+        pos = m.start() + len(head)
+        count += 1
+    return body, count
+
+
+# rules that are purely syntactic proof devices are applied only when a unit asks for them
+OPT_IN = {"R9", "R15", "R17"}
+
+
+def apply_rewrites(body, only=None, declared=()):
     counts = {}
     for name, (f, _doc) in RULES.items():
         if only is not None and name not in only:
+            continue
+        if name in OPT_IN and name not in declared:
+            counts[name] = 0
             continue
         body, c = f(body)
         counts[name] = c
